@@ -313,7 +313,7 @@ class Ctor:
     RUNNER = 'ccase_ok'
     SHOW = 'ccase_show'
     FORMS = ['lists_dims', 'labels_dims', 'pairs', 'axisobjs', 'dict_dims', 'dims_only', 'nothing', 'zeros', 'ones', 'empty_shape', 'nested', 'nested_labels']
-    BAD = ['shape_mismatch', 'dup_names', 'empty_name', 'nonstr_name', 'wrong_ndims']
+    BAD = ['shape_mismatch', 'dup_names', 'empty_name', 'nonstr_name', 'wrong_ndims', 'too_many_dims']
 
     @staticmethod
     def generate(rng, n, tier, stats):
@@ -322,7 +322,8 @@ class Ctor:
             nd = rng.randint(0, 3)
             a = rand_array(rng, ndim=nd, minlen=1, maxlen=3, dtype=rng.choice(['f', 'i']), kinds=('i', 'f', 'O'))
             form = rng.choice(Ctor.FORMS); bad = rng.choice(Ctor.BAD) if rng.random() < 0.3 and nd >= 1 else None
-            if bad and form in ('dims_only', 'nothing', 'zeros', 'ones', 'empty_shape', 'nested', 'nested_labels'): form = rng.choice(['lists_dims', 'pairs', 'axisobjs', 'dict_dims'])
+            if bad == 'too_many_dims': form = rng.choice(['dims_only', 'empty_shape', 'dict_dims', 'lists_dims', 'labels_dims'])
+            elif bad and form in ('dims_only', 'nothing', 'zeros', 'ones', 'empty_shape', 'nested', 'nested_labels'): form = rng.choice(['lists_dims', 'pairs', 'axisobjs', 'dict_dims'])
             if form in ('nested', 'nested_labels') and nd != 2: form = 'lists_dims'
             if form == 'dict_dims' and nd == 0: form = 'lists_dims'
             stats['ctor_form'][form] += 1; stats['ctor_bad'][str(bad)] += 1
@@ -335,6 +336,7 @@ class Ctor:
             elif bad == 'empty_name': dims[rng.randrange(nd)] = ''
             elif bad == 'nonstr_name': dims[rng.randrange(nd)] = 3
             elif bad == 'wrong_ndims': dims = dims[:-1]; labels = labels[:-1]
+            elif bad == 'too_many_dims': dims = dims + ['extra']        # one dimension name more than the data has dimensions
             cases.append({'form': form, 'bad': bad, 'arr': a, 'dims': dims, 'labels': labels})
         return cases
 
@@ -409,8 +411,8 @@ class Ctor:
     def oracle(c, res):
         if c.get('_illformed'): return 'ill-formed array constructed: %s' % c['_illformed'][0]
         bad = c['bad']; f = c['form']
-        if bad in ('shape_mismatch', 'wrong_ndims'):
-            return None if res[0] == 'err' else 'data whose shape disagrees with the axes was accepted'
+        if bad in ('shape_mismatch', 'wrong_ndims', 'too_many_dims'):
+            return None if res[0] == 'err' else 'data whose shape disagrees with the axes was accepted (%s, form %s)' % (bad, f)
         if bad == 'dup_names':
             if f == 'dict_dims': return None
             return None if res[0] == 'err' else 'duplicate dimension names were accepted'
